@@ -210,7 +210,8 @@ theorem get16_append_left {a b : Bytes} {i : Nat} (h : i + 2 ≤ a.length) : get
 theorem insert_answer {pp : PP} (P : PlainObj pp) (rr : Bytes) (hpc : PieceOK .answer rr P.o2 P.o2)
     (hsize : pp.packet.length + rr.length ≤ 8192) (hcount : P.A.length < 65535) (hqr : get16 P.hdr 2 / 32768 % 2 = 1) :
     ∃ (pp' : PP) (P' : PlainObj pp'), insertRR pp .answer rr = .ok (pp', none) ∧
-      P'.A = P.A ++ [rr] ∧ P'.N = P.N ∧ P'.R = P.R ∧ P'.qls = P.qls ∧ P'.q4 = P.q4 := by
+      P'.A = P.A ++ [rr] ∧ P'.N = P.N ∧ P'.R = P.R ∧ P'.qls = P.qls ∧ P'.q4 = P.q4 ∧
+      (∀ k, (k + 1 < 6 ∨ 6 + 1 < k) → get16 P'.hdr k = get16 P.hdr k) ∧ pp' = { pp with packet := pp'.packet, offsetAnswers := pp'.offsetAnswers, offsetNameservers := pp'.offsetNameservers, offsetAdditional := pp'.offsetAdditional, offsetEdns := pp.offsetEdns.map (· + rr.length) } := by
   have hlen := P.len
   obtain ⟨hdr', hw, hh', hg6, hgo⟩ := patch_header (rest := ((encLabels P.qls ++ [0]) ++ P.q4) ++ P.A.flatten ++ P.N.flatten ++ P.R.flatten)
     P.hh 6 (P.A.length + 1) (by omega) (by omega)
@@ -273,7 +274,7 @@ theorem insert_answer {pp : PP} (P : PlainObj pp) (rr : Bytes) (hpc : PieceOK .a
     rfl
   refine ⟨pp', ⟨hdr', P.q4, P.qls, P.A ++ [rr], P.N, P.R, P.o2, P.o3, P.o4, hh', ?_, P.hgq, P.hq4, P.hcl,
     P.hA.append (Pieces.cons hpc (Pieces.nil _)), P.hN, P.hR, by rw [hg6]; simp, ?_, ?_, ?_, rfl, ?_, ?_, ?_, ?_, P.mc⟩,
-    hrun, rfl, rfl, rfl, rfl, rfl⟩
+    hrun, rfl, rfl, rfl, rfl, rfl, hgo, rfl⟩
   · rw [hgo 4 (by omega)]; exact P.hqd
   · rw [hgo 8 (by omega)]; exact P.hcn
   · rw [hgo 10 (by omega)]; exact P.hcr
@@ -300,7 +301,8 @@ theorem insert_answer {pp : PP} (P : PlainObj pp) (rr : Bytes) (hpc : PieceOK .a
 theorem insert_authority {pp : PP} (P : PlainObj pp) (rr : Bytes) (hpc : PieceOK .nameServers rr P.o3 P.o3)
     (hsize : pp.packet.length + rr.length ≤ 8192) (hcount : P.N.length < 65535) (hqr : get16 P.hdr 2 / 32768 % 2 = 1) :
     ∃ (pp' : PP) (P' : PlainObj pp'), insertRR pp .nameServers rr = .ok (pp', none) ∧
-      P'.A = P.A ∧ P'.N = P.N ++ [rr] ∧ P'.R = P.R ∧ P'.qls = P.qls ∧ P'.q4 = P.q4 := by
+      P'.A = P.A ∧ P'.N = P.N ++ [rr] ∧ P'.R = P.R ∧ P'.qls = P.qls ∧ P'.q4 = P.q4 ∧
+      (∀ k, (k + 1 < 8 ∨ 8 + 1 < k) → get16 P'.hdr k = get16 P.hdr k) ∧ pp' = { pp with packet := pp'.packet, offsetAnswers := pp'.offsetAnswers, offsetNameservers := pp'.offsetNameservers, offsetAdditional := pp'.offsetAdditional, offsetEdns := pp.offsetEdns.map (· + rr.length) } := by
   have hlen := P.len
   obtain ⟨hdr', hw, hh', hg8, hgo⟩ := patch_header (rest := ((encLabels P.qls ++ [0]) ++ P.q4) ++ P.A.flatten ++ P.N.flatten ++ P.R.flatten)
     P.hh 8 (P.N.length + 1) (by omega) (by omega)
@@ -360,7 +362,7 @@ theorem insert_authority {pp : PP} (P : PlainObj pp) (rr : Bytes) (hpc : PieceOK
     rfl
   refine ⟨pp', ⟨hdr', P.q4, P.qls, P.A, P.N ++ [rr], P.R, P.o2, P.o3, P.o4, hh', ?_, P.hgq, P.hq4, P.hcl,
     P.hA, P.hN.append (Pieces.cons hpc (Pieces.nil _)), P.hR, ?_, by rw [hg8]; simp, ?_, ?_, rfl, ?_, ?_, ?_, ?_, P.mc⟩,
-    hrun, rfl, rfl, rfl, rfl, rfl⟩
+    hrun, rfl, rfl, rfl, rfl, rfl, hgo, rfl⟩
   · rw [hgo 4 (by omega)]; exact P.hqd
   · rw [hgo 6 (by omega)]; exact P.hca
   · rw [hgo 10 (by omega)]; exact P.hcr
@@ -388,7 +390,8 @@ open Res
 theorem insert_additional {pp : PP} (P : PlainObj pp) (rr : Bytes) (hpc : PieceOK .additional rr P.o4 P.o4)
     (hsize : pp.packet.length + rr.length ≤ 8192) (hcount : P.R.length < 65535) :
     ∃ (pp' : PP) (P' : PlainObj pp'), insertRR pp .additional rr = .ok (pp', none) ∧
-      P'.A = P.A ∧ P'.N = P.N ∧ P'.R = P.R ++ [rr] ∧ P'.qls = P.qls ∧ P'.q4 = P.q4 := by
+      P'.A = P.A ∧ P'.N = P.N ∧ P'.R = P.R ++ [rr] ∧ P'.qls = P.qls ∧ P'.q4 = P.q4 ∧
+      (∀ k, (k + 1 < 10 ∨ 10 + 1 < k) → get16 P'.hdr k = get16 P.hdr k) ∧ pp' = { pp with packet := pp'.packet, offsetAnswers := pp'.offsetAnswers, offsetNameservers := pp'.offsetNameservers, offsetAdditional := pp'.offsetAdditional } := by
   have hlen := P.len
   obtain ⟨hdr', hw, hh', hg10, hgo⟩ := patch_header (rest := ((encLabels P.qls ++ [0]) ++ P.q4) ++ P.A.flatten ++ P.N.flatten ++ P.R.flatten)
     P.hh 10 (P.R.length + 1) (by omega) (by omega)
@@ -426,7 +429,7 @@ theorem insert_additional {pp : PP} (P : PlainObj pp) (rr : Bytes) (hpc : PieceO
     rfl
   refine ⟨pp', ⟨hdr', P.q4, P.qls, P.A, P.N, P.R ++ [rr], P.o2, P.o3, P.o4, hh', ?_, P.hgq, P.hq4, P.hcl,
     P.hA, P.hN, P.hR.append (Pieces.cons hpc (Pieces.nil _)), ?_, ?_, by rw [hg10]; simp, ?_, rfl, P.oq, P.oa, P.on, ?_, P.mc⟩,
-    hrun, rfl, rfl, rfl, rfl, rfl⟩
+    hrun, rfl, rfl, rfl, rfl, rfl, hgo, rfl⟩
   · rw [hgo 4 (by omega)]; exact P.hqd
   · rw [hgo 6 (by omega)]; exact P.hca
   · rw [hgo 8 (by omega)]; exact P.hcn
